@@ -33,7 +33,8 @@ def run_np_case(rec, k):
     if rk == "none":
         name, args, kw = FORMS.get(f, (f, (), {}))
         if f.startswith("power_"):
-            name, args = "power", ({"power_int2": 2, "power_nd2": np.array(2), "power_nd3": np.array(3)}[f],)
+            import osyris
+            name, args = "power", ({"power_int2": 2, "power_nd2": np.array(2), "power_nd3": np.array(3), "power_q2": 2 * osyris.units("dimensionless"), "power_a3": A(3.0)}[f],)
         fn = getattr(np, name)
         sa = snapshot(a)
         try:
@@ -42,7 +43,7 @@ def run_np_case(rec, k):
             return "mismatch", f"np.{name}{args}{kw} raised {type(e).__name__}: {e}", {}
         if not same_snapshot(sa, snapshot(a)):
             return "mismatch", f"np.{name} modified its argument", {}
-        want = fn(raw, *args, **kw)
+        want = fn(raw, *[(x.values if isinstance(x, A) else getattr(x, "magnitude", x)) for x in args], **kw)
         return _compare(res, want, o, [dt], 0.0, f)
     # two operands / sequences / out=
     rdt = dt if rk in ("arr", "out") else "f8"
